@@ -464,6 +464,80 @@ func vrManifestPutSubjects() string {
 	return ""
 }
 
+
+// referrers paging (C07): following the Link chain of a listing - filtered or not, whichever was asked for first - yields
+// exactly the present artifacts of that subject (of that type), each once
+func vrReferrersPaging() string {
+	tr := true
+	for _, filteredFirst := range []bool{false, true} {
+		s := New(config.Config{Storage: config.ConfigStorage{StoreType: config.StoreMem}, API: config.ConfigAPI{DeleteEnabled: &tr, PushEnabled: &tr, Referrer: config.ConfigAPIReferrer{Limit: 700}}})
+		sd, sraw := vrPushImage(s, "repo", "subject", "s")
+		subj := types.Descriptor{MediaType: types.MediaTypeOCI1Manifest, Digest: sd, Size: int64(len(sraw))}
+		want := map[string]map[string]bool{"": {}}
+		for i := 0; i < 4; i++ {
+			for _, kind := range []string{"a", "b"} {
+				d, code := vrPushArtifact(s, "repo", subj, kind, map[string]string{"n": fmt.Sprint(i)})
+				if code != 201 {
+					_ = s.Close()
+					return ""
+				}
+				at := "application/vnd.example." + kind
+				if want[at] == nil {
+					want[at] = map[string]bool{}
+				}
+				want[at][d.String()] = true
+				want[""][d.String()] = true
+			}
+		}
+		order := []string{"", "application/vnd.example.a", "application/vnd.example.b"}
+		if filteredFirst {
+			order = []string{"application/vnd.example.a", "", "application/vnd.example.b"}
+		}
+		for _, at := range order {
+			target := "/v2/repo/referrers/" + sd.String()
+			if at != "" {
+				target += "?artifactType=" + at
+			}
+			got := map[string]int{}
+			for step := 0; step < 30 && target != ""; step++ {
+				r := vrDo(s, "GET", target, nil, nil)
+				if r.panicked != nil || r.code != 200 {
+					_ = s.Close()
+					return fmt.Sprintf("GET %s answers %d (panic %v)", target, r.code, r.panicked)
+				}
+				idx := types.Index{}
+				_ = json.Unmarshal(r.body, &idx)
+				for _, d := range idx.Manifests {
+					if at != "" && d.ArtifactType != at {
+						_ = s.Close()
+						return fmt.Sprintf("GET %s (filter %s, filtered listing asked first: %v) lists %s of type %s", target, at, filteredFirst, d.Digest, d.ArtifactType)
+					}
+					got[d.Digest.String()]++
+				}
+				target = ""
+				if link := r.hdr.Get("Link"); link != "" {
+					i, j := strings.Index(link, "<"), strings.Index(link, ">")
+					if i >= 0 && j > i {
+						target = link[i+1 : j]
+					}
+				}
+			}
+			for d := range want[at] {
+				if got[d] != 1 {
+					_ = s.Close()
+					return fmt.Sprintf("referrers of %s with filter %q (filtered listing asked first: %v): artifact %s is listed %d times along the Link chain", sd, at, filteredFirst, d, got[d])
+				}
+			}
+			if len(got) != len(want[at]) {
+				_ = s.Close()
+				return fmt.Sprintf("referrers of %s with filter %q: %d entries along the Link chain, %d artifacts of that kind exist", sd, at, len(got), len(want[at]))
+			}
+		}
+		_ = s.Close()
+	}
+	return ""
+}
+
 func TestVerifReplay(t *testing.T) {
 	ob := os.Getenv("VERIF_OBLIGATION")
 	type probe struct {
@@ -478,6 +552,7 @@ func TestVerifReplay(t *testing.T) {
 		{"blobUploadMount", vrMountOutside},
 		{"manifestPut", vrManifestPutLimits},
 		{"manifestDelete", vrTagDeleteKeepsReferrer},
+		{"referrerGet", vrReferrersPaging},
 		{"manifestGet", vrHeadMatchesGet},
 		{"blobGet", vrHeadMatchesGet},
 		{"ServeHTTP", vrRateLimitPerAddress},
